@@ -599,14 +599,20 @@ def mt8(model):
                 src = self.ev(g.iter, st) if isinstance(e.elt, ast.Name) and isinstance(g.target, ast.Name) \
                     and e.elt.id == g.target.id else _ClassSet(anything=True)
                 excl = set()
-                for c in g.ifs:
-                    if isinstance(c, ast.Compare) and isinstance(c.ops[0], ast.NotIn) \
-                            and isinstance(c.left, ast.Call) and getattr(c.left.func, 'id', '') == 'type' \
-                            and isinstance(c.comparators[0], (ast.Tuple, ast.List, ast.Set)):
+                atoms = []
+                for c0 in g.ifs:
+                    guards.split_fact(c0, True, atoms)
+                for c, tr in atoms:
+                    if not (isinstance(c, ast.Compare) and len(c.ops) == 1 and isinstance(c.left, ast.Call)
+                            and getattr(c.left.func, 'id', '') == 'type'):
+                        continue
+                    op = c.ops[0]
+                    neg_set = (isinstance(op, ast.NotIn) and tr) or (isinstance(op, ast.In) and not tr)
+                    neg_one = (isinstance(op, (ast.IsNot, ast.NotEq)) and tr) or (isinstance(op, (ast.Is, ast.Eq)) and not tr)
+                    if neg_set and isinstance(c.comparators[0], (ast.Tuple, ast.List, ast.Set)):
                         for x in c.comparators[0].elts:
                             excl.add(x.attr if isinstance(x, ast.Attribute) else getattr(x, 'id', '?'))
-                    elif isinstance(c, ast.Compare) and isinstance(c.ops[0], ast.IsNot) \
-                            and isinstance(c.left, ast.Call) and getattr(c.left.func, 'id', '') == 'type':
+                    elif neg_one:
                         x = c.comparators[0]
                         excl.add(x.attr if isinstance(x, ast.Attribute) else getattr(x, 'id', '?'))
                 return _ClassSet(src.names - excl, src.anything, src.excluded | excl)
